@@ -205,7 +205,11 @@ impl Memory {
     ensures
         /*@wf*/ final(self).wf(),
         /*@endian*/ final(self).endian == old(self).endian,
-        /*@err*/ !within32(old(self).sections@, address) ==> r is Err && final(self).sections@ == old(self).sections@,
+        /*@err*/ !within32(old(self).sections@, address) ==> (r matches Err(e) && e is Custom) && final(self).sections@ == old(self).sections@,
+        /*@shape*/ forall|k: u64| #![trigger final(self).sections@.contains_key(k)] #![trigger old(self).sections@.contains_key(k)]
+            final(self).sections@.contains_key(k) == old(self).sections@.contains_key(k)
+            && (old(self).sections@.contains_key(k) ==> final(self).sections@[k].data@.len() == old(self).sections@[k].data@.len()
+                && final(self).sections@[k].permissions == old(self).sections@[k].permissions),
         /*@ok*/ within32(old(self).sections@, address) ==> r is Ok && (forall|x: int| #[trigger] vw(final(self).sections@, x) == (
             if address <= x < address + 4 { Some((w32_byte(old(self).endian, value, x - address), vw(old(self).sections@, x).unwrap().1)) }
             else { vw(old(self).sections@, x) })),
@@ -260,11 +264,10 @@ impl Memory {
     proof { lemma_get_init(value, bits, self.sections@, address); }
 //@ loop 0
     invariant
-        self.wf(), 8 <= bits, bits as nat <= MAX_BITS(), bits % 8 == 0,
-        1 <= i <= bits / 8,
-        forall|x: int| address <= x < address + i ==> (#[trigger] vw(self.sections@, x)) is Some,
-        expr_sane(value), expr_bits(value) == bits,
-        eval_spec(value, empty_env()) == EvalR::Val(bits as nat, be_value(bytes_at(self.sections@, address, i as nat))),
+        /*@ctx*/ self.wf() && 8 <= bits && bits as nat <= MAX_BITS() && bits % 8 == 0 && 1 <= i <= bits / 8,
+        /*@prefix_mapped*/ forall|x: int| address <= x < address + i ==> (#[trigger] vw(self.sections@, x)) is Some,
+        /*@expr_ok*/ expr_sane(value) && expr_bits(value) == bits,
+        /*@prefix_value*/ eval_spec(value, empty_env()) == EvalR::Val(bits as nat, be_value(bytes_at(self.sections@, address, i as nat))),
 //@ before 0 `value = il::Expression::or(`
     let ghost old_value = value;
     proof {
@@ -278,11 +281,10 @@ impl Memory {
     }
 //@ loop 1
     invariant
-        self.wf(), 8 <= bits, bits as nat <= MAX_BITS(), bits % 8 == 0,
-        1 <= i <= bits / 8,
-        forall|x: int| address <= x < address + i ==> (#[trigger] vw(self.sections@, x)) is Some,
-        expr_sane(value), expr_bits(value) == bits,
-        eval_spec(value, empty_env()) == EvalR::Val(bits as nat, le_value(bytes_at(self.sections@, address, i as nat))),
+        /*@ctx*/ self.wf() && 8 <= bits && bits as nat <= MAX_BITS() && bits % 8 == 0 && 1 <= i <= bits / 8,
+        /*@prefix_mapped*/ forall|x: int| address <= x < address + i ==> (#[trigger] vw(self.sections@, x)) is Some,
+        /*@expr_ok*/ expr_sane(value) && expr_bits(value) == bits,
+        /*@prefix_value*/ eval_spec(value, empty_env()) == EvalR::Val(bits as nat, le_value(bytes_at(self.sections@, address, i as nat))),
 //@ before 1 `value = il::Expression::or(`
     let ghost old_value = value;
     proof {
@@ -319,30 +321,30 @@ impl Memory {
         /*@view_map*/ final(self).bytes() == write_map(old(self).bytes(), address, data@, permissions),
 //@ loop 0
     invariant
-        self.sections@ == old(self).sections@,
-        als__@.len() == it0.index@,
-        it0.seq().no_duplicates(),
-        forall|j: int| 0 <= j < it0.seq().len() ==> self.sections@.contains_key(*(#[trigger] it0.seq()[j]).0) && self.sections@[*it0.seq()[j].0] == *it0.seq()[j].1,
-        forall|k: u64| #[trigger] self.sections@.contains_key(k) ==> exists|j: int| 0 <= j < it0.seq().len() && *(#[trigger] it0.seq()[j]).0 == k,
-        forall|j: int| #![trigger als__@[j]] #![trigger it0.seq()[j]] 0 <= j < it0.index@ ==> als__@[j].0 == *it0.seq()[j].0 && als__@[j].1 as nat == it0.seq()[j].1.data@.len(),
+        /*@snap_unchanged*/ self.sections@ == old(self).sections@,
+        /*@snap_len*/ als__@.len() == it0.index@,
+        /*@snap_nodup*/ it0.seq().no_duplicates(),
+        /*@snap_sound*/ forall|j: int| 0 <= j < it0.seq().len() ==> self.sections@.contains_key(*(#[trigger] it0.seq()[j]).0) && self.sections@[*it0.seq()[j].0] == *it0.seq()[j].1,
+        /*@snap_complete*/ forall|k: u64| #[trigger] self.sections@.contains_key(k) ==> exists|j: int| 0 <= j < it0.seq().len() && *(#[trigger] it0.seq()[j]).0 == k,
+        /*@snap_items*/ forall|j: int| #![trigger als__@[j]] #![trigger it0.seq()[j]] 0 <= j < it0.index@ ==> als__@[j].0 == *it0.seq()[j].0 && als__@[j].1 as nat == it0.seq()[j].1.data@.len(),
 //@ loop 1
     invariant
-        address + data@.len() <= u64::MAX,
-        self.endian == old(self).endian,
-        sections_wf(self.sections@),
+        /*@fits*/ address + data@.len() <= u64::MAX,
+        /*@endian*/ self.endian == old(self).endian,
+        /*@no_overlap*/ sections_wf(self.sections@),
         // the snapshot lists the sections of the memory as it was on entry, each once
-        forall|j: int| 0 <= j < it1.seq().len() ==> old(self).sections@.contains_key((#[trigger] it1.seq()[j]).0)
+        /*@snapshot*/ forall|j: int| 0 <= j < it1.seq().len() ==> old(self).sections@.contains_key((#[trigger] it1.seq()[j]).0)
             && it1.seq()[j].1 as nat == old(self).sections@[it1.seq()[j].0].data@.len(),
-        forall|i: int, j: int| 0 <= i < j < it1.seq().len() ==> (#[trigger] it1.seq()[i]).0 != (#[trigger] it1.seq()[j]).0,
+        /*@snapshot_distinct*/ forall|i: int, j: int| 0 <= i < j < it1.seq().len() ==> (#[trigger] it1.seq()[i]).0 != (#[trigger] it1.seq()[j]).0,
         // sections not yet visited are untouched
-        forall|j: int| it1.index@ <= j < it1.seq().len() ==> self.sections@.contains_key((#[trigger] it1.seq()[j]).0)
+        /*@unvisited_untouched*/ forall|j: int| it1.index@ <= j < it1.seq().len() ==> self.sections@.contains_key((#[trigger] it1.seq()[j]).0)
             && self.sections@[it1.seq()[j].0] == old(self).sections@[it1.seq()[j].0],
         // every stored section is either not yet visited or already clear of the written region
-        forall|k: u64| #[trigger] self.sections@.contains_key(k) ==>
+        /*@visited_clear_of_region*/ forall|k: u64| #[trigger] self.sections@.contains_key(k) ==>
             (exists|j: int| it1.index@ <= j < it1.seq().len() && (#[trigger] it1.seq()[j]).0 == k)
             || k + self.sections@[k].data@.len() <= address || address + data@.len() <= k,
         // outside the written region nothing has changed
-        forall|x: int| !(address <= x < address + data@.len()) ==> #[trigger] vw(self.sections@, x) == vw(old(self).sections@, x),
+        /*@frame*/ forall|x: int| !(address <= x < address + data@.len()) ==> #[trigger] vw(self.sections@, x) == vw(old(self).sections@, x),
 //@ after 0 `let (a, l) = (al.0, al.1 as u64);`
     let ghost s1 = self.sections@;
     proof {
@@ -400,7 +402,9 @@ impl Memory {
         if data0.len() > 0 {
             lemma_insert(s_end, address, sec);
         }
-        lemma_write_map(old(self).sections@, self.sections@, address, data0, permissions);
+        if forall|x: int| #[trigger] vw(self.sections@, x) == write_at(old(self).sections@, address, data0, permissions, x) {
+            lemma_write_map(old(self).sections@, self.sections@, address, data0, permissions);
+        }
     }
 //@ end
 
